@@ -8,7 +8,7 @@ From Coq Require Import Reals ZArith List Bool String.
 From PyLib Require Import PyVal PyBuiltins Ideal.
 From Gen Require Import M_base M_Angle M_Epoch M_Interpolation M_Coordinates M_Earth M_Sun.
 From Proofs.C14 Require C14_witness.
-From Proofs.C14 Require Import C14_tac C14_angle C14_angle2 C14_jde C14_eot C14_season C14_season_all C14_poly C14_rise C14_riseset C14_trts.
+From Proofs.C14 Require Import C14_tac C14_angle C14_angle2 C14_jde C14_eot C14_season C14_season_all C14_poly C14_rise C14_riseset C14_trts C14_trig C14_sunapp.
 Import ListNotations.
 Open Scope R_scope.
 
@@ -68,6 +68,31 @@ Theorem C14_season_loop_invariant : forall (D : R -> Prop) k y lam bet rad,
   D (jde0 k y) ->
   SeasonGood D k lam (Sun_get_equinox_solstice Rops (VInt y) (VStr (season_name k))).
 Proof. exact season_loop_invariant. Qed.
+
+(* THE SEASON CLAUSE, with the Sun-position premise discharged by property C08's theorem
+   C08_app.sun_apparent_unconditional (imported; years -2000..6000).  For every season and every int
+   year -1000..3000: unless the generated loop runs out of its fuel (termination is NOT proved), the
+   call returns an Epoch t, and what Sun.apparent_geocentric_position itself returns at t is a triple
+   whose longitude lon in [0,360) is within 2.5e-6 degree (the property asks 1e-5) of k*90 degrees
+   plus a multiple of 180 degrees: the target longitude or its antipode (the antipode is excluded
+   only by the search).  Remaining premise: the Epoch constructor is exact (Epoch(float j) has JDE j)
+   on the instants within 290058 days of the mean instant, the most 5000 rounds of 58 days can drift. *)
+Theorem C14_season_longitude : forall k y,
+  (0 <= k <= 3)%Z -> (-1000 <= y <= 3000)%Z -> CtorExact (Dreg (jde0 k y)) ->
+  let v := Sun_get_equinox_solstice Rops (VInt y) (VStr (season_name k)) in
+  v = VErr OutOfFuel \/
+  exists t lon lat r (m : Z),
+    v = epo t /\
+    Sun_apparent_geocentric_position Rops (epo t) (VBool true) = VTuple [ang lon; ang lat; VFloat r] /\
+    0 <= lon < 360 /\
+    Rabs (lon - (IZR k * 90 + 180 * IZR m)) < 25 / 10000000.
+Proof. exact season_longitude. Qed.
+
+(* the same in the loop's own terms: result within the reachable region, |58 sin(k*90 - lon)| <= 2.5e-6 *)
+Theorem C14_season_result : forall k y,
+  (0 <= k <= 3)%Z -> (-1000 <= y <= 3000)%Z -> CtorExact (Dreg (jde0 k y)) ->
+  SeasonResult k y (Sun_get_equinox_solstice Rops (VInt y) (VStr (season_name k))).
+Proof. exact season_result. Qed.
 
 Theorem C14_season_year_range : forall k y, (0 <= k <= 3)%Z -> (y < -1000 \/ 3000 < y)%Z ->
   Sun_get_equinox_solstice Rops (VInt y) (VStr (season_name k)) = VErr ValueError.
@@ -179,3 +204,5 @@ Redirect "C14_trts_none.assumptions" Print Assumptions C14_trts_none.
 Redirect "C14_never_crosses.assumptions" Print Assumptions C14_never_crosses.
 Redirect "C14_season_structure.assumptions" Print Assumptions C14_season_structure.
 Redirect "C14_callee_shapes.assumptions" Print Assumptions C14_callee_shapes.
+Redirect "C14_season_longitude.assumptions" Print Assumptions C14_season_longitude.
+Redirect "C14_season_result.assumptions" Print Assumptions C14_season_result.
